@@ -19,6 +19,10 @@ def universe(level):
         ("Dict[str]", lambda: DDict(str)), ("Opt[int]", lambda: DOptional(int)), ("model{x:int}", lambda: {"x": int}),
         # raw detection result of [[1, 1.5]] (detection does not simplify; simplification must reach inside nested containers)
         ("List[List[Union[int,float]]]", lambda: DList(DList(DUnion(int, float)))),
+        # two disjoint literal sets of ten values: each is within the limit of 15, their union is not (the overflow into str happens
+        # only when the members are merged -- for a set inside an Optional member that is at the very end of the simplification)
+        ("Lit{a0..a9}", lambda: L({f"a{i}" for i in range(10)})), ("Lit{b0..b9}", lambda: L({f"b{i}" for i in range(10)})),
+        ("Opt[Lit{b0..b9}]", lambda: DOptional(L({f"b{i}" for i in range(10)}))),
     ]
     if level == "full":
         u += [
@@ -150,7 +154,9 @@ def scen_late_registration(ch, params, out):
               lambda: f"{samples}: with datetime types registered {when}: {c1}; registered before the generator existed: {cref}", "simplification_depends_on_registration_time")
 
 
-X_ATOMS = {"int": 1, "float": 1.5, "lit": "auto", "lit2": "manual", "null": None, "absent": None, "intstr": "12"}
+X_ATOMS = {"int": 1, "float": 1.5, "lit": "auto", "lit2": "manual", "null": None, "absent": None, "intstr": "12",
+           # ten distinct short strings each: two such sets together exceed the literal limit of 15 only once they are merged
+           "lits_a": [f"a{i}" for i in range(10)], "lits_b": [f"b{i}" for i in range(10)]}
 
 
 def _check_registry(out, gen, reg, ctx, tag):
@@ -182,10 +188,11 @@ def scen_registry_merge(ch, params, out):
     def objs(atoms):
         res = []
         for a in atoms:
-            o = {"k1": 1, "k2": "abc", "k3": 2.5}
-            if a != "absent":
-                o["x"] = X_ATOMS[a]
-            res.append(o)
+            for v in (X_ATOMS[a] if isinstance(X_ATOMS[a], list) else [X_ATOMS[a]]):
+                o = {"k1": 1, "k2": "abc", "k3": 2.5}
+                if a != "absent":
+                    o["x"] = v
+                res.append(o)
         return res
     if wrap == "list_of_objects":
         samples = [{"a": objs(sa), "b": objs(sb)}]
@@ -237,7 +244,7 @@ def scen_two_rounds(ch, params, out):
 def parts(tier):
     if tier == "quick":
         return [
-            CH("universe18", "vflib.props.c08:scen_universe", {"universe": "small", "max": 3}, shards=16, timeout=170, path_timeout=30),
+            CH("universe22", "vflib.props.c08:scen_universe", {"universe": "small", "max": 3}, shards=16, timeout=170, path_timeout=30),
             CH("inputs", "vflib.props.c08:scen_inputs", {"kinds": "KINDS_FULL", "samples": 2, "keys": ["a"], "symbolic_leaves": False,
                                                          "merge": ["default"]},
                shards=16, timeout=170, path_timeout=30),
@@ -247,13 +254,17 @@ def parts(tier):
                shards=16, timeout=170, path_timeout=30),
             CH("registry_merge_of_simplified_fields", "vflib.props.c08:scen_registry_merge", {}, shards=16, timeout=170, path_timeout=30),
             CH("two_rounds_on_one_registry", "vflib.props.c08:scen_two_rounds", {"keys": 4}, shards=16, timeout=170, path_timeout=30),
+            CH("registry_merge_literal_overflow", "vflib.props.c08:scen_registry_merge", {"atoms": ["lits_a", "lits_b", "intstr", "lit", "null", "absent"]},
+               shards=16, timeout=170, path_timeout=30),
         ]
     return [
         CH("registry_merge_of_simplified_fields", "vflib.props.c08:scen_registry_merge", {"atoms": ["int", "float", "lit", "lit2", "null", "absent", "intstr"]},
            shards=16, timeout=250, path_timeout=30),
         CH("two_rounds_on_one_registry", "vflib.props.c08:scen_two_rounds", {"keys": 5}, shards=16, timeout=250, path_timeout=30),
+        CH("registry_merge_literal_overflow", "vflib.props.c08:scen_registry_merge", {"atoms": ["lits_a", "lits_b", "intstr", "lit", "null", "absent", "float"]},
+           shards=16, timeout=250, path_timeout=30),
         CH("late_registration", "vflib.props.c08:scen_late_registration", {}, shards=16, timeout=250, path_timeout=30),
-        CH("universe40", "vflib.props.c08:scen_universe", {"universe": "full", "max": 3}, shards=16, timeout=250, path_timeout=30),
+        CH("universe44", "vflib.props.c08:scen_universe", {"universe": "full", "max": 3}, shards=16, timeout=250, path_timeout=30),
         CH("inputs", "vflib.props.c08:scen_inputs", {"kinds": "KINDS_FULL", "samples": 2, "keys": ["a"], "symbolic_leaves": False,
                                                      "merge": ["default", "p50n2"], "dkf": True}, shards=16, timeout=250, path_timeout=30),
         CH("inputs_grammar_depth1_pairs", "vflib.props.c08:scen_inputs", {"kinds": "GRAMMAR1", "samples": 2, "keys": ["a"], "symbolic_leaves": False},
